@@ -55,8 +55,11 @@ ENDINGS = {
     'exec': [[b'exec']], 'discard-then-exec': [[b'discard'], [b'exec']], 'exec-twice': [[b'exec'], [b'exec']],
     'exec-bad-arity': [[b'exec', b'x'], [b'exec']],
     'exec-then-tx': [[b'exec'], [b'multi'], [b'set', b'later', b'1'], [b'exec']],
+    'discard-then-tx': [[b'discard'], [b'multi'], [b'set', b'later', b'1'], [b'exec'], [b'get', b'later']],
+    'unwatch-inside-then-exec': [[b'unwatch'], [b'exec']],
 }
-PRE = {'watch': lambda: [[b'watch', K]], 'watch-two': lambda: [[b'watch', K, K2]], 'watch-unwatch': lambda: [[b'watch', K], [b'unwatch']],
+PRE = {'watch-two-dbs': lambda: [[b'watch', K], [b'select', b'2'], [b'watch', K], [b'select', b'0']],
+       'watch': lambda: [[b'watch', K]], 'watch-two': lambda: [[b'watch', K, K2]], 'watch-unwatch': lambda: [[b'watch', K], [b'unwatch']],
        'no-watch': lambda: [], 'watch-twice': lambda: [[b'watch', K], [b'watch', K]]}
 
 
@@ -93,6 +96,8 @@ def all_scenarios():
                 yield ('%s/db%d/%s' % (holds, wdb, aname), (holds, act, False, 'watch', 'valid', 'exec', wdb))
             for (aname, act) in CROSS:
                 yield ('%s/db%d/cross:%s' % (holds, wdb, aname), (holds, act, True, 'watch', 'valid', 'exec', wdb))
+    for act in ([[b'select', b'2'], [b'set', K, b'indb2']], [[b'select', b'2'], [b'get', K]], [[b'select', b'0'], [b'set', K, b'indb0']], [[b'select', b'3'], [b'set', K, b'x']]):
+        yield ('two-dbs/%s' % act[0][1].decode(), ('string', act, False, 'watch-two-dbs', 'valid', 'exec', 0))
     for pre in PRE:
         for queue in QUEUES:
             for ending in ENDINGS:
@@ -117,14 +122,14 @@ def run(res, prop, tier, seed, t_end, observers, scope=None):
             res.cells.add(('scenario', name.split('/')[-1], args[0]))
             if s.violations:
                 v = s.violations[0]
-                res.findings.append({'kind': 'monitor', 'property': v.prop, 'clause': v.clause, 'detail': v.detail, 'scenario': name,
+                res.add({'kind': 'monitor', 'property': v.prop, 'clause': v.clause, 'detail': v.detail, 'scenario': name,
                                      'version': version, 'seed': seed, 'events': [corr.ev_json(e) for e in evs]})
                 return
             if d is not None:
                 verdict = Cp.judge(d, scope)
                 if verdict == 'out-of-scope':
                     continue
-                res.findings.append({'kind': 'divergence', 'verdict': verdict, 'what': d.what, 'scenario': name, 'version': version, 'seed': seed,
+                res.add({'kind': 'divergence', 'verdict': verdict, 'what': d.what, 'scenario': name, 'version': version, 'seed': seed,
                                      'events': [corr.ev_json(e) for e in evs], 'impl': d.impl_side, 'model': d.model_side, 'at': corr.ev_json(d.event)})
                 return
     if tier == 'thorough':
